@@ -265,7 +265,7 @@ class DefaultWorker(Worker):
             os.environ[k] = v
 
         # ----------------------------------------------------------------------
-        def _worker_proc(res_lock):
+        def _worker_proc(res_lock, res_done):
             # FIXME: do we still need this thread?
 
             import setproctitle
@@ -306,6 +306,7 @@ class DefaultWorker(Worker):
 
             with res_lock:
                 self._result_queue.put(res)
+                res_done.set()
         # ----------------------------------------------------------------------
 
 
@@ -317,13 +318,15 @@ class DefaultWorker(Worker):
           #                 task['uid'], task['pid'], tout)
 
             res_lock = mp.Lock()
-            worker_proc = mp.Process(target=_worker_proc, args=(res_lock,))
+            res_done = mp.Event()
+            worker_proc = mp.Process(target=_worker_proc,
+                                     args=(res_lock, res_done))
             worker_proc.daemon = True
             worker_proc.start()
             worker_proc.join(timeout=tout)
 
             with res_lock:
-                if worker_proc.is_alive():
+                if not res_done.is_set():
                     worker_proc.terminate()
                     worker_proc.join()
                     out = None
@@ -335,6 +338,9 @@ class DefaultWorker(Worker):
                     self._log.debug('put 2 result: task %s', task['uid'])
                     self._result_queue.put(res)
                     self._log.debug('worker_proc killed: %s', task['uid'])
+
+            # the child has put its result: let it flush the queue and exit
+            worker_proc.join()
 
         except Exception as e:
 
